@@ -412,6 +412,17 @@ func tamperInPlace(path, how string) {
 	})
 }
 
+// loadResultTimed loads a target result; a load that does not return is reported as a hang.
+func loadResultTimed(ctx context.Context, tc *caching.TargetResultCache, key string) (*gen.TargetResult, error, bool) {
+	var res *gen.TargetResult
+	err, hung := withTimeout(opTimeout, func() error {
+		var e error
+		res, e = tc.Load(ctx, key)
+		return e
+	})
+	return res, err, hung
+}
+
 // quiesce waits until the directory tree stops changing. LoadOutputs returns on the first failing output while the
 // restores of other outputs (and the download goroutines of a failed directory restore) may still be running; a real
 // follow-up build is a new process, so the harness lets such leftovers finish before the next step.
@@ -440,15 +451,23 @@ func setOpTimeout(req map[string]any) {
 
 // withTimeout runs f and reports "hang" if it does not return in time (the goroutine is abandoned).
 func withTimeout(d time.Duration, f func() error) (err error, hung bool) {
+	// circuit breaker: once several operations of this driver process have hung, the tree is broken in a way the check
+	// will report anyway (hangs are confirmed by a separate re-run); do not spend the full timeout on every further one
+	if hangCount.Load() >= 3 && d > 2*time.Second {
+		d = 2 * time.Second
+	}
 	done := make(chan error, 1)
 	go func() { done <- f() }()
 	select {
 	case err = <-done:
 		return err, false
 	case <-time.After(d):
+		hangCount.Add(1)
 		return nil, true
 	}
 }
+
+var hangCount atomic.Int64
 
 // casFiles lists cas/<digest> files (visible names only) with their content.
 func dirFiles(dir string) map[string][]byte {
@@ -682,7 +701,11 @@ type traceLog struct {
 // waitIdle returns when no backend operation has been in flight for a short while.
 func (t *traceLog) waitIdle() {
 	idle := 0
-	for i := 0; i < 2000 && idle < 3; i++ {
+	limit := 2000
+	if hangCount.Load() >= 3 {
+		limit = 200 // operations that hang for good never become idle
+	}
+	for i := 0; i < limit && idle < 3; i++ {
 		if t.inflight.Load() == 0 {
 			idle++
 		} else {
@@ -1789,7 +1812,11 @@ func init() {
 				case "peek":
 					// a consumer that stops reading early: open every blob the cached result references through the
 					// wrapper itself (not through the recorder), read one byte, close
-					cached, lerr := tc.Load(env.ctx, t.key)
+					cached, lerr, lhung := loadResultTimed(env.ctx, tc, t.key)
+					if lhung {
+						r["outcome"] = "hang"
+						break
+					}
 					if lerr != nil {
 						r["outcome"] = "miss"
 						break
@@ -1894,7 +1921,11 @@ func init() {
 						tl.add(map[string]any{"e": "local", "m": mach, "ns": "target", "k": t.key, "refs": tl.refsOf("target", t.key, b)})
 					}
 				case "restore", "restore-blocked":
-					cached, lerr := tc.Load(env.ctx, t.key)
+					cached, lerr, lhung := loadResultTimed(env.ctx, tc, t.key)
+					if lhung {
+						r["outcome"] = "hang"
+						break
+					}
 					if lerr != nil {
 						r["outcome"] = "miss"
 						break
